@@ -48,6 +48,7 @@ type poolModel struct {
 	held      map[pkey]*poolTx
 	given     map[pkey]map[string]bool // every hash ever handed to the pool for (a, n)
 	admitted  map[string]pkey          // hashes the pool admitted since the last restart and has not dropped by its own rules
+	arrived   map[string][2]int64      // hash -> wall-clock interval (ns) of the call that admitted it: the age rule's clock
 	height    uint64
 	batchSize uint64
 	timed     bool
@@ -108,9 +109,9 @@ type poolRun struct {
 	checkC18 bool
 	checkC19 bool
 	// non-triviality trackers
-	sawGapFill, sawConflict, sawPartialCommit, sawStale, sawDupHash, sawEvict, sawRestart bool
-	commits, batches                                                                      int
-	kfH13                                                                                 bool
+	sawGapFill, sawConflict, sawPartialCommit, sawStale, sawDupHash, sawEvict, sawRestart, sawAgeSplit bool
+	commits, batches                                                                                   int
+	kfH13                                                                                              bool
 }
 
 func (r *poolRun) logf(format string, args ...interface{}) {
@@ -300,6 +301,7 @@ func poolProperty(checkC18, checkC19 bool) func(t *rapid.T) {
 			batchSize: uint64(rapid.IntRange(1, 5).Draw(t, "batchSize")),
 			timed:     rapid.Bool().Draw(t, "timed"),
 			given:     map[pkey]map[string]bool{},
+			arrived:   map[string][2]int64{},
 		}
 		m.committed = make([]uint64, m.nAcc)
 		m.nextBatch = make([]uint64, m.nAcc)
@@ -362,7 +364,9 @@ func poolProperty(checkC18, checkC19 bool) func(t *rapid.T) {
 					givenBefore[s.hash] = true
 				}
 			}
+			callStart := time.Now().UnixNano()
 			batch := r.pool.ProcessTransactions(list, isLeader, isLocal)
+			callEnd := time.Now().UnixNano()
 			seen := map[pkey]bool{}
 			for _, s := range specs {
 				if m.given[s.k] == nil {
@@ -399,6 +403,7 @@ func poolProperty(checkC18, checkC19 bool) func(t *rapid.T) {
 					}
 					m.held[s.k] = s
 					m.admitted[s.hash] = s.k
+					m.arrived[s.hash] = [2]int64{callStart, callEnd}
 				}
 			}
 			if batch != nil {
@@ -521,6 +526,79 @@ func poolProperty(checkC18, checkC19 bool) func(t *rapid.T) {
 					}
 				}
 			},
+			"pause": func(t *rapid.T) {
+				// lets parked transactions age differently (the age rule reads the wall clock)
+				parked := false
+				for k := range m.held {
+					if k.n >= m.pending(k.a) && k.n >= m.nextBatch[k.a] {
+						parked = true
+					}
+				}
+				if !parked {
+					t.Skip("nothing parked")
+				}
+				r.logf("pause 6ms")
+				time.Sleep(6 * time.Millisecond)
+			},
+			"evictAge": func(t *rapid.T) {
+				// the documented age rule with a limit between the ages of the parked transactions: exactly those
+				// that arrived before the cut may go; a transaction that superseded an older one has its own age
+				var cands []*poolTx
+				for k, p := range m.held {
+					if k.n >= m.pending(k.a) && k.n >= m.nextBatch[k.a] {
+						cands = append(cands, p)
+					}
+				}
+				if len(cands) == 0 {
+					t.Skip("nothing parked")
+				}
+				sort.Slice(cands, func(i, j int) bool {
+					ai, aj := m.arrived[cands[i].hash], m.arrived[cands[j].hash]
+					if ai[1] != aj[1] {
+						return ai[1] < aj[1]
+					}
+					return cands[i].hash < cands[j].hash
+				})
+				i := rapid.IntRange(0, len(cands)).Draw(t, "evictOldest")
+				var cut int64
+				switch {
+				case i == 0:
+					cut = m.arrived[cands[0].hash][0] - int64(2*time.Millisecond)
+				case i == len(cands):
+					cut = m.arrived[cands[i-1].hash][1] + int64(time.Millisecond)
+				default:
+					cut = (m.arrived[cands[i-1].hash][1] + m.arrived[cands[i].hash][0]) / 2
+				}
+				if wait := cut - time.Now().UnixNano() + int64(time.Millisecond); wait > 0 {
+					time.Sleep(time.Duration(wait))
+				}
+				e0 := time.Now().UnixNano()
+				limit := time.Duration(e0 - cut)
+				r.pool.RemoveAliveTimeoutTxs(limit)
+				e1 := time.Now().UnixNano()
+				gone, kept, mustStay := 0, 0, 0
+				for _, p := range cands {
+					ar := m.arrived[p.hash]
+					if ar[0] >= cut+(e1-e0) {
+						// certainly younger than the limit: stays (checked by the accounting invariant)
+						mustStay++
+						kept++
+						continue
+					}
+					if r.pool.GetTransaction(p.tx.TransactionHash) == nil {
+						delete(m.admitted, p.hash)
+						delete(m.held, p.k)
+						gone++
+						r.sawEvict = true
+					} else {
+						kept++
+					}
+				}
+				r.logf("evictAge(limit=%v: the %d oldest of %d parked) -> %d evicted, %d kept (%d certainly younger)", limit, i, len(cands), gone, kept, mustStay)
+				if gone > 0 && mustStay > 0 {
+					r.sawAgeSplit = true
+				}
+			},
 			"restart": func(t *rapid.T) {
 				h := uint64(rapid.IntRange(0, 5).Draw(t, "chainHeight"))
 				r.logf("restart(height=%d committed=%v)", h, m.committed)
@@ -622,6 +700,9 @@ func poolProperty(checkC18, checkC19 bool) func(t *rapid.T) {
 		}
 		if r.sawRestart {
 			classes = append(classes, "restart")
+		}
+		if r.sawAgeSplit {
+			classes = append(classes, "age-limit-between-parked-transactions")
 		}
 		if r.batches > 0 {
 			classes = append(classes, "has-batch")
